@@ -174,6 +174,26 @@ Section Unknowns.
   Proof. intros H. unfold expand_macro. rewrite H. reflexivity. Qed.
 End Unknowns.
 
+(* the skip behind a control word ends where a macro argument ended: the
+   replacement of #n is  action token, argument, action token  (gen_repl), so
+   a control word as the last token of an argument finds an action token
+   behind it and the blank behind the closing brace is kept (C05) *)
+Lemma skip_ctl_stops pre a b :
+  Forall (fun t => buf_is_space t = true) pre -> is_action a = true \/ is_lang a = true ->
+  exists pre', skip_ctl (pre ++ a :: b) = pre' ++ a :: b.
+Proof.
+  intros Hp Ha. induction Hp as [|t pre Ht Hp IH]; cbn [app skip_ctl].
+  - exists []. cbn [app]. destruct (buf_is_space a); cbn [andb]; [|reflexivity].
+    destruct Ha as [Ha|Ha]; rewrite Ha; cbn [negb andb]; [|reflexivity].
+    destruct (negb (is_lang a)); reflexivity.
+  - destruct IH as (pre' & IH).
+    destruct (buf_is_space t && negb (is_lang t) && negb (is_action t)).
+    + exists pre'. exact IH.
+    + exists (t :: pre). reflexivity.
+Qed.
+Lemma skip_ctl_at_action a b : is_action a = true -> skip_ctl (a :: b) = a :: b.
+Proof. intros Ha. cbn [skip_ctl]. rewrite Ha. cbn [negb]. rewrite Bool.andb_false_r. reflexivity. Qed.
+
 (* ------------------------------------------------------------------ *)
 (*  C10: rotation of the placeholder collections                        *)
 (* ------------------------------------------------------------------ *)
